@@ -84,10 +84,6 @@ func classifyLine(b, a rawLine) []lineChange {
 			return cs
 		}
 	}
-	// text appended
-	if strings.HasPrefix(a.Text, b.Text) {
-		return append(cs, lineChange{kind: "appended", detail: a.Text[len(b.Text):]})
-	}
 	// one duration token replaced by another
 	p := 0
 	for p < len(b.Text) && p < len(a.Text) && b.Text[p] == a.Text[p] {
@@ -110,6 +106,10 @@ func classifyLine(b, a rawLine) []lineChange {
 			return append(cs, lineChange{kind: "duration", oldTok: ot, newTok: nt})
 		}
 	}
+	// text appended
+	if strings.HasPrefix(a.Text, b.Text) {
+		return append(cs, lineChange{kind: "appended", detail: a.Text[len(b.Text):]})
+	}
 	return []lineChange{{kind: "other", detail: fmt.Sprintf("%q -> %q", b.Text, a.Text)}}
 }
 
@@ -122,6 +122,7 @@ type c03Result struct {
 	n        int // number of inserted lines
 	changes  map[int][]lineChange
 	inserted []rawLine
+	alts     []c03Result // every valid alignment (the first one is also stored in the fields above)
 }
 
 // checkC03 decides whether A is B plus one contiguous block of new lines, with only the
@@ -150,7 +151,7 @@ func checkC03(kind string, before, after string) c03Result {
 	case "pause":
 		allowed["duration"] = true
 	}
-	var best c03Result
+	var best, found c03Result
 	best.rule = "not-contiguous"
 	bestBad := 1 << 30
 	for p := 0; p <= len(B); p++ {
@@ -201,12 +202,20 @@ func checkC03(kind string, before, after string) c03Result {
 			}
 		}
 		if bad == 0 {
-			return c03Result{ok: true, p: p, n: n, changes: changes, inserted: append([]rawLine{}, A[p:p+n]...)}
+			alt := c03Result{ok: true, p: p, n: n, changes: changes, inserted: append([]rawLine{}, A[p:p+n]...)}
+			if !found.ok {
+				found = alt
+			}
+			found.alts = append(found.alts, alt)
+			continue
 		}
 		if bad < bestBad {
 			bestBad = bad
 			best = c03Result{rule: "line-changed", detail: firstBad, p: p, n: n}
 		}
+	}
+	if found.ok {
+		return found
 	}
 	return best
 }
